@@ -247,6 +247,7 @@ func runSequence(seq int) {
 	pwOf := map[string]string{}     // wallet id -> current password ("" = not encrypted)
 	unloaded := map[string]bool{}
 	nextID := 0
+	again := -1
 	pws := []string{"pw-one", "pw-two"}
 
 	for step := 0; step < 14; step++ {
@@ -284,8 +285,27 @@ func runSequence(seq int) {
 					delete(unloaded, id) // an unloaded wallet's file is loaded again at the next start
 				}
 			}
-		case k < 5 || len(ids) == 0:
+		case k < 5 || len(ids) == 0 || again >= 0:
 			si := seeds[rng.Intn(len(seeds))]
+			if again >= 0 {
+				si = seeds[again] // the create that was just refused, once more
+			} else if len(ids) > 0 && rng.Intn(4) == 0 {
+				// a seed that some loaded wallet already has
+				want := seedOf[ids[rng.Intn(len(ids))]]
+				for i, x := range seeds {
+					if x.typ == want.typ && x.seed == want.seed && x.pass == want.pass && x.xpub == want.xpub && len(x.keys) == len(want.keys) {
+						si = seeds[i]
+					}
+				}
+			}
+			lastSeed := -1
+			for i, x := range seeds {
+				if x.typ == si.typ && x.seed == si.seed && x.pass == si.pass && x.xpub == si.xpub && len(x.keys) == len(si.keys) {
+					lastSeed = i
+				}
+			}
+			wasAgain := again >= 0
+			again = -1
 			id := fmt.Sprintf("w%d.wlt", nextID)
 			nextID++
 			if len(ids) > 0 && rng.Intn(6) == 0 {
@@ -305,6 +325,9 @@ func runSequence(seq int) {
 			}
 			r["op"], r["id"], r["wtype"], r["temp"] = "create", id, si.typ, o.Temp
 			_, opErr = s.CreateWallet(id, o)
+			if opErr != nil && !wasAgain && !r["idTaken"].(bool) && rng.Intn(2) == 0 {
+				again = lastSeed // refused (a seed or key that is already there): the same request is made again next
+			}
 			if opErr == nil {
 				seedOf[id] = si
 				pwOf[id] = string(o.Password)
